@@ -453,6 +453,9 @@ def run(ctx):
       setup_interp=setup, crosscheck=False, fsem="uf")
     import props.C06_commands as CM
     CM.prove_commands(ctx)
+    import props.C06_line as LI
+    LI.prove_line(ctx)
+    LI.prove_read_head(ctx)
     ctx.bounded("programs", "pop-on programs of three captions: drop / non-drop timecode x single / doubled control "
                 "codes x inline / separate EDM x inter-line gaps {1,4,5,6,30} frames squared x offsets {0,1,45} s, "
                 "against exact-rational reference timing (start at the EOC word, end at the next EDM/EOC, gaps under "
